@@ -101,14 +101,25 @@ class NetworkInterface(SimComponent, ABC):
     pcap: Optional[PacketCapture] = None
     "A PacketCapture instance for capturing and analysing packets passing through this interface."
 
-    nmne_config: ClassVar[NMNEConfig] = NMNEConfig()
-    "A dataclass defining malicious network events to be captured."
+    nmne_config: ClassVar[Optional[NMNEConfig]] = None
+    """Process-wide NMNE settings. When assigned, they apply to every interface (of that class) in the process; when
+    left at ``None`` an interface uses the settings of the network it belongs to (``Network.nmne_config``, which
+    ``PrimaiteGame.from_config`` sets from the config file)."""
 
     nmne: Dict = Field(default_factory=lambda: {})
     "A dict containing details of the number of malicious events captured."
 
     traffic: Dict = Field(default_factory=lambda: {})
     "A dict containing details of the inbound and outbound traffic by port and protocol."
+
+    @property
+    def nmne_settings(self) -> NMNEConfig:
+        """The NMNE settings in force for this interface: the process-wide ones if assigned, else its own network's."""
+        if self.nmne_config is not None:
+            return self.nmne_config
+        network = getattr(self._connected_node, "parent", None)
+        settings = getattr(network, "nmne_config", None)
+        return settings if settings is not None else NMNEConfig()
 
     def setup_for_episode(self, episode: int):
         """Reset the original state of the SimComponent."""
@@ -163,7 +174,7 @@ class NetworkInterface(SimComponent, ABC):
                 "enabled": self.enabled,
             }
         )
-        if self.nmne_config and self.nmne_config.capture_nmne:
+        if self.nmne_settings.capture_nmne:
             state.update({"nmne": self.nmne})
         state.update({"traffic": convert_dict_enum_keys_to_enum_values(self.traffic)})
         return state
@@ -197,7 +208,8 @@ class NetworkInterface(SimComponent, ABC):
         :param inbound: Boolean indicating if the frame direction is inbound. Defaults to True.
         """
         # Exit function if NMNE capturing is disabled
-        if not (self.nmne_config and self.nmne_config.capture_nmne):
+        nmne_config = self.nmne_settings
+        if not nmne_config.capture_nmne:
             return
 
         # Initialise basic frame data variables
@@ -218,27 +230,27 @@ class NetworkInterface(SimComponent, ABC):
         frame_str = str(frame.payload)
 
         # Proceed only if any NMNE keyword is present in the frame payload
-        if any(keyword in frame_str for keyword in self.nmne_config.nmne_capture_keywords):
+        if any(keyword in frame_str for keyword in nmne_config.nmne_capture_keywords):
             # Start with the root of the NMNE capture structure
             current_level = self.nmne
 
             # Update NMNE structure based on enabled settings
-            if self.nmne_config.capture_by_direction:
+            if nmne_config.capture_by_direction:
                 # Set or get the dictionary for the current direction
                 current_level = current_level.setdefault("direction", {})
                 current_level = current_level.setdefault(direction, {})
 
-            if self.nmne_config.capture_by_ip_address:
+            if nmne_config.capture_by_ip_address:
                 # Set or get the dictionary for the current IP address
                 current_level = current_level.setdefault("ip_address", {})
                 current_level = current_level.setdefault(ip_address, {})
 
-            if self.nmne_config.capture_by_protocol:
+            if nmne_config.capture_by_protocol:
                 # Set or get the dictionary for the current protocol
                 current_level = current_level.setdefault("protocol", {})
                 current_level = current_level.setdefault(protocol, {})
 
-            if self.nmne_config.capture_by_port:
+            if nmne_config.capture_by_port:
                 # Set or get the dictionary for the current port
                 current_level = current_level.setdefault("port", {})
                 current_level = current_level.setdefault(port, {})
@@ -247,8 +259,8 @@ class NetworkInterface(SimComponent, ABC):
             keyword_level = current_level.setdefault("keywords", {})
 
             # Increment the count for detected keywords in the payload
-            if self.nmne_config.capture_by_keyword:
-                for keyword in self.nmne_config.nmne_capture_keywords:
+            if nmne_config.capture_by_keyword:
+                for keyword in nmne_config.nmne_capture_keywords:
                     if keyword in frame_str:
                         # Update the count for each keyword found
                         keyword_level[keyword] = keyword_level.get(keyword, 0) + 1
@@ -1985,7 +1997,7 @@ class Node(SimComponent, ABC):
                     ip_address,
                     network_interface.speed,
                     "Enabled" if network_interface.enabled else "Disabled",
-                    network_interface.nmne if network_interface.nmne_config.capture_nmne else "Disabled",
+                    network_interface.nmne if network_interface.nmne_settings.capture_nmne else "Disabled",
                 ]
             )
         print(table)
